@@ -58,9 +58,19 @@ def program(c0, s0, raw, ops):
     return ('\n'.join(lines) + '\n').encode(), ','.join(enc)
 
 
+ENDPOINTS = [((0x01020304, 1000), (0x05060708, 80)), ((0x7f000001, 40000), (0x7f000001, 8080)), ((0x0a000001, 443), (0x0a000002, 443)),
+             ((0xc0a80001, 80), (0xc0a80001, 81)), ((0x05060708, 80), (0x01020304, 1000))]
+
+
 def check(c, c0, s0, raw, ops, tag):
+    # the two ends may share an address (loopback, one host) or a port number: the counters belong to a socket, not to an address
+    global CL, SV
+    CL, SV = ENDPOINTS[(c.evaluations // 2) % len(ENDPOINTS) if c.evaluations % 2 else 0]
     if raw: ops = [o for o in ops if o[0] not in ('crs', 'srs', 'chdr', 'shdr')]
     src, enc = program(c0, s0, raw, ops)
+    if c.evaluations % 5 == 3:
+        from ..gen import Lib, name_mandatory
+        src = name_mandatory(src, Lib(), c.rng.fork('nm%d' % c.evaluations), (2, 3))
     impl, model = progdiff.run_both(c, src)
     # C04 is about the TCP segment (seq/ack/flags/payload): compare from the TCP header on, checksum excluded
     off = 20 if raw else 34
